@@ -2987,7 +2987,7 @@ partial def showVal : PyFn.Val → String
   | .tuple l => "(" ++ ", ".intercalate (l.map showVal) ++ ")"
 def pInt (s : String) : Option Int := s.toInt?
 def pBool (s : String) : Option Bool := if s = "1" then some true else if s = "0" then some false else none
-def pStr (s : String) : Option String := some s
+def pStr (s : String) : Option String := if s = "<empty>" then some "" else some s
 def pSet (s : String) : Option (List Int) := if s = "-" then some [] else (s.splitOn ",").mapM String.toInt?
 def pOpt {α} (p : String → Option α) (s : String) : Option (Option α) := if s = "None" then some none else (p s).map some
 def pListOf {α} (p : String → Option α) (s : String) : Option (List α) :=
